@@ -549,11 +549,49 @@ def make_ops(pos, edges, rng, mode):
     return ops
 
 
+def nudge_corner_to_cell_line(arrs, seed):
+    """translate the whole periodic lattice (positions mod 1, crossings adjusted so that every edge vector is unchanged) so that ONE
+    future truncation corner pos[v] + vec/3 lands 5e-11 below a cell line: still strictly inside its cell, the cell offset of that
+    corner is floor(corner), nothing else.  Returns None when no vertex of degree > 2 exists or rounding spoils the placement."""
+    pos, edges, cr = (np.array(a, copy=True) for a in arrs)
+    rng = np.random.default_rng([seed, 1313])
+    V = len(pos)
+    inc = [[] for _ in range(V)]
+    for e, (j, k) in enumerate(edges):
+        inc[int(j)].append(e)
+        if k != j:
+            inc[int(k)].append(e)
+    cand = [v for v in range(V) if len(inc[v]) > 2]
+    if not cand:
+        return None
+    v = cand[int(rng.integers(0, len(cand)))]
+    e = inc[v][int(rng.integers(0, len(inc[v])))]
+    ax = int(rng.integers(0, 2))
+    c = pos[v] + outward(pos, edges, cr, v, e) / 3
+    t = np.zeros(2)
+    t[ax] = (-5e-11 - c[ax]) % 1.0
+    fl = np.floor(pos + t)
+    newpos = (pos + t) - fl
+    newcr = cr + (fl[edges[:, 1]] - fl[edges[:, 0]]).astype(int)
+    if np.any(newpos < 0) or np.any(newpos >= 1):
+        return None
+    c2 = newpos[v] + outward(newpos, edges, newcr, v, e) / 3
+    f = c2[ax] - np.floor(c2[ax])
+    if not (1 - 1e-10 < f < 1 - 1e-11):
+        return None
+    return newpos, edges, newcr
+
+
 def build_case(case):
     arrs, why = gen.try_build(case["lattice"])
     if arrs is None:
         return None
     for step in case.get("pre", []):
+        if step[0] == "nudge":
+            arrs = nudge_corner_to_cell_line(arrs, step[1])
+            if arrs is None:
+                return None
+            continue
         lat = mk(*arrs)
         if step[0] == "cut":
             lat = cut_boundaries(lat, list(step[1]))
@@ -603,6 +641,9 @@ def case_list(tier, seed):
         if i % 4 == 3:
             k = int(rng.integers(0, 2**31))
             cases.append({"lattice": b, "pre": [["trunc", "random", k]], "mode": "trunc"})
+    # one truncation corner a hair (5e-11) below a cell line: its cell offset is floor(corner), whatever the margin
+    for i, b in enumerate((vor + til)[: (16 if quick else 80)]):
+        cases.append({"lattice": b, "pre": [["nudge", int(rng.integers(0, 2**31))]], "mode": "trunc"})
     for b in ex:
         cases.append({"lattice": b, "mode": "both"})
     # small irregular lattices of C01's space (edge-deleted / tiled), truncation only
